@@ -74,11 +74,12 @@ var c09ItemNames = func() []string {
 	return out
 }()
 
-// prefix family: items that are prefixes of one another, with lengths around 16, 32, 64, 128, 256
+// prefix family: items that are prefixes of one another, with lengths around 16, 32, 64, 128, 256, 520 (the
+// wire limit for one filteradd / script element; Add and Matches themselves have no length limit) and beyond
 // (an implementation that remembers or compares items by a bounded part of their content confuses them)
 var c09PrefixNames = func() []string {
 	var out []string
-	for _, n := range []int{4, 8, 15, 16, 17, 31, 32, 33, 63, 64, 65, 66, 127, 128, 129, 255, 256, 257} {
+	for _, n := range []int{4, 8, 15, 16, 17, 31, 32, 33, 63, 64, 65, 66, 127, 128, 129, 255, 256, 257, 519, 520, 521, 1000, 4096} { // 520: the script-element / filteradd limit
 		out = append(out, fmt.Sprintf("%dp", n))
 	}
 	return out
@@ -479,7 +480,7 @@ func runC09(c *mc.Ctx) {
 				}
 			}
 		}
-		c.Space("histories of depth <= 3 over {add, matches} x 18 items that are prefixes of one another (lengths around 16..256)", int64(len(hs)))
+		c.Space("histories of depth <= 3 over {add, matches} x 23 items that are prefixes of one another (lengths around 16..256, 520 and up to 4096)", int64(len(hs)))
 		c.ParFor(int64(len(hs)), func(w *mc.W, i int64) {
 			w.State()
 			c09EvalHistory(w, hs[i])
